@@ -19,7 +19,7 @@ def run(chk):
                  depth=2 if quick else 3, first=False) for s in CROSS]
     jobs += [dict(subjects=[s], pmax=255, inits="ZeroOne", lens="L1to2", ranks="R3", negzero=False,
                   depth=8 if quick else 11, first=True) for s in REV]
-    fa = background(tokfam.emit_replay, chk, yv, "c14", jobs, 6)
+    fa = background(tokfam.emit_replay, chk, yv, "c14", jobs, 6, False, True)
     # model checking
     tokfam.mc(chk, "MC_Tok_cross.cfg", "crossing detectors: every pair of streams of any length over ranks -1..2 and -0.0; "
               "Cross(a,b) = -Cross(b,a)", {"PMAX": 255}, workers=6)
